@@ -11,13 +11,15 @@ HOSTILE = ["plain", "-x", "--flag", "--env", "--rm", "--", "-", "with space", "a
            "--name=evil", "--entrypoint", "x y z", "\ttab", "new\nline", "--publish=1:1"]
 KEYS = ["A", "PATH", "lower", "with space", "-dash", "--double", "k.ey", "café", "K_1", "0"]
 BUILDPACKS = ["./fixtures/app", "../crate/fixtures", "./does/not/exist", "fixtures/app", ".", "heroku/nodejs", "heroku/procfile@1.2.3", "urn:cnb:registry:x/y", "/abs/path/bp", "rel/bp.cnb", "-weird", "--also", "docker://img/bp:1", "with space/bp", "a=b", "dup/bp", "dup/bp"]
-FIXTURE = {"fixtures/app/index.txt": "hello", "fixtures/app/sub/file": "x", "fixtures/app/keep": "k", "fixtures/other app/f": "other", "Cargo.toml": "[package]\nname = \"fixturecrate\"\nversion = \"0.0.0\"\n"}
+FIXTURE = {"elsewhere/app/index.txt": "the app beside the link target", "elsewhere/app/keep": "e", "elsewhere/deep/marker": "m", "fixtures/app/index.txt": "hello", "fixtures/app/sub/file": "x", "fixtures/app/keep": "k", "fixtures/other app/f": "other", "Cargo.toml": "[package]\nname = \"fixturecrate\"\nversion = \"0.0.0\"\n"}
 OWN = re.compile(r"^libcnbtest_[a-z]{12}$")
 
 
 def gen_case(r, idx, env):
     c = {"idx": idx}
-    app = r.choice(["fixtures/app", "fixtures/other app", os.path.join(env.crate, "fixtures/app"), "./fixtures/../fixtures/app"])
+    # "fixtures/link" is a symlink to a directory elsewhere: "fixtures/link/../app" is <that directory's parent>/app for the
+    # file system, which is a different directory than the lexically simplified "fixtures/app"
+    app = r.choice(["fixtures/app", "fixtures/other app", os.path.join(env.crate, "fixtures/app"), "./fixtures/../fixtures/app", "fixtures/link/../app"])
     nb = r.choice([0, 1, 2, 4])
     bps = [r.choice(BUILDPACKS) for _ in range(nb)]
     benv = {}
@@ -74,16 +76,29 @@ def apply_pre(digest, pre):
 
 
 def run_case(env, c, sh):
+    link = os.path.join(env.crate, "fixtures", "link")
+    if not os.path.lexists(link):
+        os.symlink("../elsewhere/deep", link)
     scenario = {"builds": [{"config": c["build"], "body": [{"op": "run_shell_command", "command": c["shell"]},
                                                             {"op": "start_container", "config": c["container"], "body": [{"op": "shell_exec", "command": c["exec"]}] +
                                                              ([{"op": "address_for_port", "port": c["container"]["ports"][0]}] if c["container"]["ports"] else [])}] +
                             ([{"op": "rebuild", "reuse_config": True, "config": c["build"], "body": []}] if c.get("rebuild") else [])}]}
-    app_abs = os.path.normpath(c["build"]["app_dir"] if os.path.isabs(c["build"]["app_dir"]) else os.path.join(env.crate, c["build"]["app_dir"]))
+    app_abs = os.path.realpath(c["build"]["app_dir"] if os.path.isabs(c["build"]["app_dir"]) else os.path.join(env.crate, c["build"]["app_dir"]))
     before = fixture_digest(app_abs)
-    rc, err, log, left = env.run(scenario)
-    sh.evaluations += 1
     case = {"idx": c["idx"], "case": c}
     what = "case #%d" % c["idx"]
+    if c["idx"] % 10 == 9:
+        # pack fails although success is expected: the runner must give up after that one invocation
+        rc, err, log, left = env.run(scenario, {"fail_kinds": ["pack build"], "exit": 1})
+        sh.evaluations += 1
+        n = len([e for e in log if e["kind"] == "pack build"])
+        if n != 1 or rc == 0:
+            sh.violation("pack-build-count:on-failure", "%s: pack build failed (scripted); the runner issued %d pack build invocations and the scenario exit was %r" % (what, n, rc), case)
+        else:
+            sh.nontrivial.add(("pack-fails", len(c["build"]["buildpacks"])))
+        return
+    rc, err, log, left = env.run(scenario)
+    sh.evaluations += 1
     if rc != 0:
         sh.violation("scenario-failed", "%s: the scenario did not complete (exit %r): %s" % (what, rc, err[-400:]), case)
         return
@@ -127,14 +142,14 @@ def run_case(env, c, sh):
         sh.violation("build-env", "%s: --env pairs decode to %r, configured %r" % (what, sorted(b["env"]), want_env), case)
         return
     if cfg["preprocessor"] is None:
-        if b["path"] is None or os.path.normpath(b["path"]) != app_abs:
+        if b["path"] is None or os.path.realpath(b["path"]) != app_abs:
             sh.violation("path:fixture", "%s: --path is %r, the fixture is %r" % (what, b["path"], app_abs), case)
             return
         if raw["path_digest"] != before:
             sh.violation("path:content", "%s: content given to pack differs from the fixture" % what, case)
             return
     else:
-        if b["path"] is None or os.path.normpath(b["path"]) == app_abs or not raw.get("path_is_dir"):
+        if b["path"] is None or os.path.realpath(b["path"]) == app_abs or not raw.get("path_is_dir"):
             sh.violation("path:not-private", "%s: a preprocessor is configured but --path is %r (fixture %r)" % (what, b["path"], app_abs), case)
             return
         want = apply_pre(before, cfg["preprocessor"])
